@@ -240,3 +240,40 @@ pub fn random_big(rng: &mut Rng, cases: u64, out: &mut Out) {
             "dbg":{"T":t.to_string(),"yes":y.to_string(),"no":no.to_string(),"abstain":ab.to_string(),"veto":ve.to_string(),"p":p.to_string(),"q":q.to_string(),"weight":weight.to_string()}}));
     }
 }
+
+/// re-evaluate the cases of a replay file (ndjson of recorded events) on the current tree
+pub fn replay(path: &str, out: &mut Out) {
+    use std::io::BufRead;
+    let f = std::fs::File::open(path).unwrap_or_else(|e| panic!("cannot open {path}: {e}"));
+    emit_reset(out, 1, "replay");
+    for line in std::io::BufReader::new(f).lines() {
+        let line = line.unwrap();
+        let Ok(e) = serde_json::from_str::<Value>(&line) else { continue };
+        let act = e["act"].as_str().unwrap_or("");
+        if act == "case" {
+            let th = &e["thr"];
+            let kind = th["kind"].as_str().unwrap();
+            let c = Case { thr: thr_small(kind, th["weight"].as_u64().unwrap(), th["p"].as_u64().unwrap(), th["q"].as_u64().unwrap()), total: e["T"].as_u64().unwrap(),
+                v: [e["v"]["yes"].as_u64().unwrap(), e["v"]["no"].as_u64().unwrap(), e["v"]["abstain"].as_u64().unwrap(), e["v"]["veto"].as_u64().unwrap()], expired: e["expired"].as_bool().unwrap() };
+            let (p, r, panic, st, _) = eval(&c);
+            let mut n = e.clone();
+            n["passed"] = json!(p); n["rejected"] = json!(r); n["status"] = json!(st); n["panic"] = json!(panic);
+            out.emit(&n);
+        } else if act == "bigcase" {
+            let d = &e["dbg"];
+            let g = |k: &str| -> u64 { d[k].as_str().unwrap().parse().unwrap() };
+            let gp = |k: &str| -> u128 { d[k].as_str().unwrap().parse().unwrap() };
+            let kind = e["thr"]["kind"].as_str().unwrap();
+            let thr = match kind {
+                "count" => Threshold::AbsoluteCount { weight: g("weight") },
+                "pct" => Threshold::AbsolutePercentage { percentage: Decimal::new(Uint128::new(gp("p"))) },
+                _ => Threshold::ThresholdQuorum { threshold: Decimal::new(Uint128::new(gp("p"))), quorum: Decimal::new(Uint128::new(gp("q"))) },
+            };
+            let c = Case { thr, total: g("T"), v: [g("yes"), g("no"), g("abstain"), g("veto")], expired: e["expired"].as_bool().unwrap() };
+            let (p, r, panic, st, _) = eval(&c);
+            let mut n = e.clone();
+            n["passed"] = json!(p); n["rejected"] = json!(r); n["status"] = json!(st); n["panic"] = json!(panic);
+            out.emit(&n);
+        }
+    }
+}
